@@ -121,6 +121,26 @@ def run(ctx: Ctx):
                     # C18.shipped_min_tau_energy_v*: impossible for the modelled sampler on the shipped tables
                     ctx.disagree("C07.min-energy-theorem", {**case, "theorem": "C18.shipped_min_tau_energy_v" + ver})
             ctx.count(f"taus_v{ver}", n)
+            # a copied / pickled Taus object (what a worker process receives) goes by the same configuration as the original
+            if ver == "3":
+                import copy
+                import pickle
+                cfg.simulation.tau_shower.etau_frac = 0.3
+                for how, mk in (("pickle round trip", lambda o: pickle.loads(pickle.dumps(o))), ("copy.deepcopy", copy.deepcopy)):
+                    ctx.case(("copied-taus", how, frac)); ctx.count("copied_taus_objects")
+                    try:
+                        t2 = mk(tau)
+                        b2 = np.radians(rng.uniform(0.5, 41.0, 16)); l2 = rng.uniform(6.0, 12.0, 16)
+                        _, _, te2, se2, _ = t2(b2, l2)
+                    except Exception as ex:  # noqa
+                        ctx.notes.append(f"{how} of a Taus object raised {type(ex).__name__} (not required by the property)")
+                        continue
+                    if not np.allclose(se2 * 1e8, 0.3 * te2, rtol=1e-12, atol=0):
+                        ctx.violation("Taus.__call__", "shower-energy-after-copying-the-object",
+                                      f"after a {how} of a Taus object whose configuration was set to etau_frac = 0.3 by assignment, the shower energy is not 0.3 of the tau energy",
+                                      {"how": how, "etau_frac": 0.3, "ratio": float(se2[0] * 1e8 / te2[0])})
+                        break
+                cfg.simulation.tau_shower.etau_frac = frac
             # history on ONE object: the fraction in force is the one configured when the call is made
             for frac2 in (1.0, 0.25, float(rng.uniform(0.01, 1.0)), frac):
                 cfg.simulation.tau_shower.etau_frac = frac2
